@@ -35,6 +35,17 @@ Definition norm_fwd (w b : nat -> K) (xhat : nat -> nat -> K) (p c : nat) : K :=
 Definition norm_gs_w (P : nat) (g xhat : nat -> nat -> K) (c : nat) : K := sumn P (fun p => xhat p c * g p c).
 Definition norm_gs_b (P : nat) (g : nat -> nat -> K) (c : nat) : K := sumn P (fun p => g p c).
 
+(* ---- nn.Conv1d / Conv2d / Conv3d as ONE gather layer: y[p][o] = sum_c sum_k W[o][c][k] * xpad[chan o c][src p k] + b[o]
+   p : output position (flattened), k : kernel offset (flattened), c : input channel within the group of o,
+   chan o c : absolute input channel ((o / (O/G)) * (C/G) + c), src p k : location in the padded input read by tap k at position p
+   (1-D: p*stride + k*dilation) -- both are arbitrary functions here, so stride, padding (incl. "same"), dilation, groups and the number
+   of spatial dimensions are all covered.  unfold + einsum "noq,npq->nop" + the group diagonal compute conv_gs_w. *)
+Definition conv_fwd (C Kk : nat) (chan src : nat -> nat -> nat) (W : nat -> nat -> nat -> K) (b : nat -> K) (xp : nat -> nat -> K) (p o : nat) : K :=
+  sumn C (fun c => sumn Kk (fun k => W o c k * xp (chan o c) (src p k))) + b o.
+Definition conv_gs_w (P : nat) (chan src : nat -> nat -> nat) (g : nat -> nat -> K) (xp : nat -> nat -> K) (o c k : nat) : K :=
+  sumn P (fun p => g p o * xp (chan o c) (src p k)).
+Definition conv_gs_b (P : nat) (g : nat -> nat -> K) (o : nat) : K := sumn P (fun p => g p o).
+
 (* ---- SequenceBias (bias_k / bias_v of multi-head attention): one extra position holding the bias: y[T][d] = b[d] *)
 Definition seqbias_gs (T : nat) (g : nat -> nat -> K) (d : nat) : K := g T d.
 End Layers.
